@@ -16,17 +16,18 @@ RULE = ('corpus + symmetric / multi-component curated molecules, each evaluated 
         'folded bit sets, ordered SMARTS match lists, results of ten in-place operations on cold and on warmed copies, tautomer '
         'list, pack bytes) is read first (uncached), again (cached), after flush_cache() in a shuffled sequence, on a copy in the '
         'opposite sequence and cached in the opposite sequence; inputs include unsymmetrical azolium cations, rings whose '
-        'equivalent centres all carry labels and stereo elements that exist only through an isotope; the parent compares digests '
+        'equivalent centres all carry labels and stereo elements that exist only through an isotope; ~70 reaction texts per group (unmapped, partly mapped, '
+        'reagents, empty sides) as the readers number them, their map output and the numbers after an RDF cycle; the parent compares digests '
         'across processes; non-trivial = molecule with a ring or symmetry (non-singleton Morgan classes), distinct by input')
 ASSUMPTIONS = ['CachedMethods compatibility shim', 'hash(mol) is excluded: it is the hash of a str and seed dependent by language '
                'definition; the property does not list it', 'pack bytes come from the .pyx source under pyxsan']
 SEEDS = ['0', '1', '2', '17', '12345', 'random', '4294967295', '7']
 CONFIG = {
     'quick': {'shards': 16, 'budget_s': 150, 'groups': 4, 'n_corpus': 500,
-              'floors': {'evaluations': 20000, 'distinct_nontrivial': 200, 'digests.compared-across-processes': 5000,
+              'floors': {'evaluations': 20000, 'distinct_nontrivial': 200, 'digests.compared-across-processes': 5000, 'parsed-reactions.digested': 100,
                          'processes.hash-seeds': 4, 'within-process.comparisons': 20000}},
     'thorough': {'shards': 16, 'budget_s': 2400, 'groups': 2, 'n_corpus': 4200,
-                 'floors': {'evaluations': 400000, 'distinct_nontrivial': 2500, 'digests.compared-across-processes': 100000,
+                 'floors': {'evaluations': 400000, 'distinct_nontrivial': 2500, 'digests.compared-across-processes': 100000, 'parsed-reactions.digested': 100,
                             'processes.hash-seeds': 8, 'within-process.comparisons': 400000}},
 }
 QUERIES = ['c:c:n', '[C;D3]', 'C(=O)N', '[A]~[A]~[A]', '[N,O;D1]', 'C-;!@C', '[C;r6]:[C;r6]', 'CC.CC', 'c1ccccc1']
@@ -171,6 +172,44 @@ def reactions(ctx, s, m, rng):
             return
 
 
+REACTION_TEXTS = ['CCO.CC(=O)O>>CC(=O)OCC.O', 'CCO.CC(=O)O>[H+]>CC(=O)OCC.O', 'c1ccccc1Br.OB(O)c1ccccc1>[Pd]>c1ccccc1-c1ccccc1', '[CH3:1][OH:2].CC(=O)Cl>>CC(=O)[O:2][CH3:1].Cl',
+                  'CC=O.[NH2:7]C>>CC=[N:7]C.O', 'C=C.C=CC=C>>C1CCC=CC1', 'CCBr.[Na+].[OH-]>O>CCO.[Na+].[Br-]', '>>CCO', 'CCO>>', 'CC(=O)O.OCC>O.CC>CC(=O)OCC',
+                  '[CH3:3]C(=O)O.OCC>>[CH3:3]C(=O)OCC.O', 'N.N.CC(=O)C>>CC(=N)C.O', '(CCO.CC(=O)O)>>CC(=O)OCC.O', 'CC[N+](C)(C)C.[I-]>C.C>CCN(C)C.CI']
+
+
+def parsed_reactions(ctx, group, groups, rng, digests, pool):
+    """reactions as the readers build them (numbers given to unmapped atoms, roles, map output): the same in every process"""
+    import io
+    from chython.files import RDFWrite, RDFRead
+    texts = [t for k, t in enumerate(REACTION_TEXTS) if k % groups == group]
+    for k in range(0, len(pool) - 2, 3):
+        a, b, c = pool[k:k + 3]
+        texts.append('%s.%s>%s>%s' % (a, b, c, a) if k % 2 else '%s>>%s.%s' % (a, b, c))
+    for text in texts:
+        try:
+            rx = smiles(text)
+        except Exception:
+            ctx.count('parsed-reactions.not-read')
+            continue
+        try:
+            row = {'rxn-str': str(rx), 'rxn-maps': format(rx, 'm'), 'rxn-atom-numbers': [list(m._atoms) for m in rx.molecules()],
+                   'rxn-atoms-order': [list(m.smiles_atoms_order) for m in rx.molecules()]}
+            buf = io.StringIO()
+            w = RDFWrite(buf)
+            w.write(rx)
+            back = next(iter(RDFRead(io.StringIO(buf.getvalue()))))
+            row['rxn-atom-numbers-through-rdf'] = [list(m._atoms) for m in back.molecules()]
+            row['rxn-str-through-rdf'] = str(back)
+        except Exception as e:
+            ctx.violation('observable-raises/%s' % type(e).__name__, 'reaction %s: %r' % (text, e), {'smiles': text})
+            continue
+        ctx.count('parsed-reactions.digested')
+        ctx.evaluations += 1
+        row = {k: dg(v) for k, v in row.items()}
+        row['_str'] = text
+        digests['rxn:' + text] = row
+
+
 def worker(ctx):
     cfg = CONFIG[ctx.tier]
     groups = cfg['groups']
@@ -247,6 +286,8 @@ def worker(ctx):
         row.update({k: dg(v) for k, v in tr.items()})
         row['_str'] = first['str']
         digests[s] = row
+    small = [x for x in src if 3 < len(x) < 30 and '.' not in x and '>' not in x][:45]
+    parsed_reactions(ctx, group, groups, rng, digests, small)
     ctx.blobs['group'] = group
     ctx.blobs['hash_seed'] = seed_label
     ctx.blobs['hash_probe'] = hash('chython')      # differs between processes iff the seeds really differ
